@@ -400,6 +400,9 @@ class R:
     def item(self):
         return self
 
+    def __format__(self, spec):
+        return "<%s>" % (self.v,)
+
     # numpy ufunc dispatch on object arrays
     def exp(self):
         return uexp(self)
@@ -434,6 +437,13 @@ class R:
 
     def __repr__(self):
         return "R(%s)" % (self.v,)
+
+
+class RI(R):
+    """an exact real that stands for an INTEGER-typed input (Python int / numpy
+    integer scalar): arrays built from it have an integer dtype in numpy"""
+
+    __slots__ = ()
 
 
 class C:
@@ -655,7 +665,7 @@ def light_axioms(c):
     return out
 
 
-CUBIC_CAP = 14  # families with more applications get no three-way law instances
+CUBIC_CAP = 22  # families with more applications get no three-way law instances
 
 
 def axioms(c, extra_pairs=True):
@@ -790,6 +800,12 @@ def axioms(c, extra_pairs=True):
             out.append(z3.Implies(a > 0, v > 0))
         for (y, x), v in A.get("atan2", []):
             out.append(z3.And(v > -pi, v <= pi))
+            # rho cos(atan2(y, x)) = x and rho sin(atan2(y, x)) = y with rho = sqrt(x^2 + y^2)
+            for (a,), r in A.get("sqrt", []):
+                for (a1,), s1 in S:
+                    out.append(z3.Implies(z3.And(a == x * x + y * y, a1 == v), r * s1 == y))
+                for (a2,), c2 in Cc:
+                    out.append(z3.Implies(z3.And(a == x * x + y * y, a2 == v), r * c2 == x))
             for (a1,), s1 in S:
                 for (a2,), c2 in Cc:
                     # rho cos(atan2(y, x)) = x, rho sin(atan2(y, x)) = y with rho^2 = x^2 + y^2
@@ -815,7 +831,7 @@ def _concrete_key(key):
     """object arrays of symbolic booleans used as masks are decided element by
     element on the current path (the path explorer forks where both outcomes
     are feasible), then numpy does the indexing"""
-    if isinstance(key, np.ndarray) and key.dtype == object and key.size and all(isinstance(e, (B, bool, np.bool_)) for e in key.ravel()):
+    if isinstance(key, np.ndarray) and key.dtype == object and all(isinstance(e, (B, bool, np.bool_)) for e in key.ravel()):
         out = np.zeros(key.shape, bool)
         for idx in np.ndindex(key.shape):
             out[idx] = bool(key[idx])
@@ -825,15 +841,46 @@ def _concrete_key(key):
     return key
 
 
+def _trunc(v):
+    """numpy's float -> integer cast (truncation toward zero) of an exact real"""
+    v = R(v)
+    if v.is_const():
+        return R(int(v.v))
+    t = zt(v)
+    fl = z3.ToReal(z3.ToInt(t))
+    return R(z3.If(t >= 0, fl, -z3.ToReal(z3.ToInt(-t))))
+
+
 class XArr(np.ndarray):
-    """object ndarray of R / C"""
+    """object ndarray of R / C; ikind marks arrays that numpy would hold as an
+    integer dtype (values stored into them are truncated, as numpy casts)"""
+
+    ikind = False
+
+    def __array_finalize__(self, obj):
+        self.ikind = False
 
     def __getitem__(self, key):
         r = np.ndarray.__getitem__(self, _concrete_key(key))
         return r
 
     def __setitem__(self, key, val):
+        if self.ikind:
+            c_ = ctx()
+            c_.truncations = getattr(c_, "truncations", 0) + 1
+            if isinstance(val, np.ndarray):
+                v2 = np.empty(val.shape, dtype=object)
+                for idx in np.ndindex(val.shape):
+                    v2[idx] = _trunc(val[idx])
+                val = v2
+            else:
+                val = _trunc(val)
         np.ndarray.__setitem__(self, _concrete_key(key), val)
+
+    def copy(self, *a, **k):
+        out = np.array(np.asarray(self, dtype=object), dtype=object, copy=True).view(XArr)
+        out.ikind = self.ikind
+        return out
 
     # comparisons give object arrays of symbolic booleans (numpy would truth-test every element)
     def _cmp(self, o, op):
@@ -949,16 +996,18 @@ class XNP:
         start, stop, step = R(start), R(stop), R(step)
         vals = []
         kk = 0
+        up = bool(step > 0)  # decided (or forked) once
         while True:
             v = start + step * kk
-            if not (v < stop):
+            if not ((v < stop) if up else (v > stop)):
                 break
             vals.append(v)
             kk += 1
             if kk >= XNP.ARANGE_CAP:
                 # bound of the exploration: longer ranges are cut (recorded as a cap hit)
                 c = ctx()
-                c.pc.append(z3.Not(zt(start + step * kk) < zt(stop)))
+                nxt = start + step * kk
+                c.pc.append(z3.Not(zt(nxt) < zt(stop)) if up else z3.Not(zt(nxt) > zt(stop)))
                 c.cap_hits = getattr(c, "cap_hits", 0) + 1
                 break
         return xarr(vals) if vals else np.zeros(0)
@@ -1018,7 +1067,21 @@ class XNP:
         return self._filled(shape, 1, dtype)
 
     def zeros_like(self, a, dtype=None, **k):
-        return self._filled(np.shape(a), 0, dtype or float)
+        out = self._filled(np.shape(a), 0, dtype or float)
+        if dtype is None and getattr(a, "ikind", False):
+            out.ikind = True  # inherits the integer dtype, as numpy does
+        return out
+
+    def nanmedian(self, a, *args, **k):
+        # median of a (symbolic) selection: an uninterpreted function of the selected entries
+        vals = [zt(e) for e in np.ravel(np.asarray(a, dtype=object))]
+        if not vals:
+            return R(ctx().fresh("nan"))
+        key = tuple(sorted(str(v) for v in vals))
+        reg = ctx().__dict__.setdefault("medians", {})
+        if key not in reg:
+            reg[key] = ctx().fresh("median")
+        return R(reg[key])
 
     def copy(self, a, *args, **k):
         if isinstance(a, np.ndarray) and a.dtype == object:
@@ -1033,7 +1096,10 @@ class XNP:
             o[()] = a
             return o.view(XArr)
         if isinstance(a, (list, tuple)) and any(isinstance(e, (R, C)) for e in a):
-            return xarr(list(a))
+            out = xarr(list(a))
+            if all(isinstance(e, RI) or isinstance(e, (int, np.integer)) for e in a):
+                out.ikind = True
+            return out
         return np.asarray(a, *args, **k)
 
     array = asarray
